@@ -619,3 +619,116 @@ def path_tokenisers(ctx):
             else:
                 ctx.holds("R14.5", f.where(c), f"a step is an orientation sign followed by every character up to the next sign ({pat!r})")
     ctx.require_count("R14.5", n, 5, "gaftools/", "places where a path is cut into steps (regular expressions over < and >)")
+
+
+# ---------------------------------------------------------------------------------------------
+# itertools.groupby groups *runs*: a table keyed by the group key, filled from a sequence in input order, keeps only the
+# last run of every key
+# ---------------------------------------------------------------------------------------------
+
+
+def groupby_tables(ctx, funcs, rule):
+    """For every loop / comprehension over itertools.groupby(X, ...) in `funcs` that stores one entry per group under the
+    group key (`D[key] = ...`, `{key: ... for key, grp in groupby(X)}`): X is sorted by that key (`sorted(...)`, or a
+    list `.sort()`ed before).  groupby starts a new group whenever the key changes, so over a sequence in file / input
+    order a key that comes back opens a second group and the store overwrites the first."""
+    from ..core import AnalysisError, norm, walk_own, walk_stmts
+
+    n = 0
+    for f in funcs:
+        for node in walk_own(f.node):
+            gb = None
+            tgt = None
+            stores = False
+            if isinstance(node, ast.For) and isinstance(node.iter, ast.Call) and norm(node.iter.func) in ("itertools.groupby", "groupby"):
+                gb, tgt = node.iter, node.target
+                if isinstance(tgt, ast.Tuple) and len(tgt.elts) == 2:
+                    knames = {x.id for x in ast.walk(tgt.elts[0]) if isinstance(x, ast.Name)}
+                    for st in walk_stmts(node.body):
+                        if isinstance(st, ast.Assign) and any(isinstance(t, ast.Subscript) and {x.id for x in ast.walk(t.slice) if isinstance(x, ast.Name)} & knames for t in st.targets):
+                            stores = True
+            elif isinstance(node, ast.DictComp) and len(node.generators) == 1 and isinstance(node.generators[0].iter, ast.Call) and norm(node.generators[0].iter.func) in ("itertools.groupby", "groupby"):
+                gb, tgt = node.generators[0].iter, node.generators[0].target
+                if isinstance(tgt, ast.Tuple) and len(tgt.elts) == 2:
+                    knames = {x.id for x in ast.walk(tgt.elts[0]) if isinstance(x, ast.Name)}
+                    stores = bool({x.id for x in ast.walk(node.key) if isinstance(x, ast.Name)} & knames)
+            if gb is None or not stores or not gb.args:
+                continue
+            n += 1
+            src = gb.args[0]
+            key = next((k.value for k in gb.keywords if k.arg == "key"), gb.args[1] if len(gb.args) > 1 else None)
+
+            def is_sorted(e, depth=0):
+                if isinstance(e, ast.Call) and isinstance(e.func, ast.Name) and e.func.id == "sorted":
+                    k2 = next((k.value for k in e.keywords if k.arg == "key"), None)
+                    return key is None or k2 is None or norm(k2) == norm(key) or None
+                if isinstance(e, ast.Name) and depth < 3:
+                    defs = [st.value for st in walk_stmts(f.node.body) if isinstance(st, ast.Assign) and len(st.targets) == 1 and norm(st.targets[0]) == e.id]
+                    sorts = [c for c in walk_own(f.node) if isinstance(c, ast.Call) and isinstance(c.func, ast.Attribute) and c.func.attr == "sort" and norm(c.func.value) == e.id and f.before(c, gb)]
+                    if sorts:
+                        k2 = next((k.value for k in sorts[-1].keywords if k.arg == "key"), None)
+                        return key is None or k2 is None or norm(k2) == norm(key) or None
+                    if len(defs) == 1:
+                        return is_sorted(defs[0], depth + 1)
+                return False
+
+            v = is_sorted(src)
+            if v is None:
+                raise AnalysisError(rule, f.where(gb), f"`{norm(gb)[:70]}` groups a sequence sorted by another key expression: whether equal group keys are adjacent is not decided")
+            ctx.check(v, rule, f.where(gb), "a table with one entry per group key is built with itertools.groupby only over a sequence sorted by that key (groupby groups runs: over a sequence in input order a key that comes back overwrites its earlier entry)", key_of(f, f"groupby-unsorted:{norm(src)[:50]}"), **({} if v else {"grouped": norm(src)[:80], "why": "the grouped sequence is in file / input order: the entries of one key need not be adjacent, and each later run replaces the entry of the earlier one"}))
+    return n
+
+
+def none_slice_bounds(ctx, f, rule):
+    """A slice bound that can be None — the default of `next(<generator>, None)` / `D.get(k)` bound to a name and used as
+    `xs[:i]` / `xs[i:]` without an `is None` test on the way — makes the slice the whole sequence: "cut at the first match"
+    silently becomes "everything" when nothing matches.  Returns the number of such slices reported."""
+    from ..core import norm, walk_own, walk_stmts
+    from .c09 import guards_of
+
+    n = 0
+    maybe_none = {}
+    for st in walk_stmts(f.node.body):
+        if isinstance(st, ast.Assign) and len(st.targets) == 1 and isinstance(st.targets[0], ast.Name):
+            v = st.value
+            if isinstance(v, ast.Call) and isinstance(v.func, ast.Name) and v.func.id == "next" and len(v.args) == 2 and isinstance(v.args[1], ast.Constant) and v.args[1].value is None:
+                maybe_none[st.targets[0].id] = st
+            elif isinstance(v, ast.Call) and isinstance(v.func, ast.Attribute) and v.func.attr == "get" and len(v.args) == 1 and not v.keywords:
+                maybe_none[st.targets[0].id] = st
+    if not maybe_none:
+        return 0
+    for st in walk_stmts(f.node.body):
+        if isinstance(st, (ast.If, ast.For, ast.While, ast.With, ast.Try)):
+            continue
+        for sub in ast.walk(st):
+            if isinstance(sub, ast.Subscript) and isinstance(sub.slice, ast.Slice):
+                for b in (sub.slice.lower, sub.slice.upper):
+                    if isinstance(b, ast.Name) and b.id in maybe_none:
+                        tests = " ; ".join(norm(t) for t, _ in guards_of(f.node, st))
+                        if f"{b.id} is None" in tests or f"{b.id} is not None" in tests:
+                            continue
+                        n += 1
+                        ctx.violated(rule, f.where(st), f"`{norm(sub)[:60]}` is cut at `{b.id}` = `{norm(maybe_none[b.id].value)[:70]}`, which is None when nothing matches: a slice with a None bound is the whole sequence, so for a file without a match (a chromosome that is a single segment has no L line) both `[:{b.id}]` and `[{b.id}:]` are all of its lines — they are written twice, once among the S lines and once after the links", key_of(f, f"none-slice-bound:{norm(sub)[:40]}"))
+    return n
+
+
+def zip_drops_item(ctx, funcs, rule):
+    """`zip(it, range(n))` evaluated repeatedly on one iterator `it` (inside a loop, `it` not rebound there): zip asks its
+    first argument for an item before it finds the bounded argument exhausted, so the item fetched last is thrown away at
+    the end of every chunk.  (`zip(range(n), it)` and itertools.islice do not have that problem.)"""
+    from ..core import norm, walk_own
+
+    n = 0
+    for f in funcs:
+        for lp in walk_own(f.node):
+            if not isinstance(lp, (ast.While, ast.For)):
+                continue
+            rebound = {x.id for x in ast.walk(lp) if isinstance(x, ast.Name) and isinstance(x.ctx, ast.Store)}
+            for c in ast.walk(lp):
+                if isinstance(c, ast.Call) and isinstance(c.func, ast.Name) and c.func.id == "zip" and len(c.args) >= 2:
+                    for i, a in enumerate(c.args[:-1]):
+                        later_bounded = [b for b in c.args[i + 1 :] if isinstance(b, ast.Call) and isinstance(b.func, ast.Name) and b.func.id == "range"]
+                        if isinstance(a, ast.Name) and a.id not in rebound and later_bounded and (a.id in f.params or any(isinstance(st, ast.Assign) and norm(st.targets[0]) == a.id and isinstance(st.value, ast.Call) and norm(st.value.func) in ("iter", "enumerate", "map", "filter", "zip") for st in walk_own(f.node))):
+                            n += 1
+                            ctx.violated(rule, f.where(c), f"`{norm(c)[:60]}` is evaluated once per chunk on the same iterator `{a.id}`: zip takes the next item from `{a.id}` before it finds `{norm(later_bounded[0])}` exhausted and drops it, so one record is lost at the end of every full chunk (records 1000, 2001, ... of the input never reach a worker)", key_of(f, f"zip-drops-item:{norm(c)[:40]}"))
+    return n
